@@ -14,8 +14,18 @@ theorem dot_map_map {α} (ws : List α) (f g : α → Rat) :
   | nil => simp
   | cons w t ih => simp only [List.map_cons, dot_cons, List.sum_cons, ih]
 
+/-! ### re-ordering by label, for any label type (`reorderColsBy` / `reorderVecBy`; the `String` versions
+`reorderCols` / `reorderVec` are the same functions) -/
+
+section Generic
+variable {α : Type} [BEq α] [LawfulBEq α]
+
+theorem idxOf_cons_ne_by (a l : α) (t : List α) (h : a ≠ l) : (a :: t).idxOf l = t.idxOf l + 1 := by
+  have hb : (a == l) = false := by simpa using h
+  rw [List.idxOf_cons, hb]; rfl
+
 /-- summing `row[idx l] * c[idx l]` over the (duplicate-free) labels is the dot product -/
-theorem sum_map_idxOf (labels : List String) (hl : labels.Nodup) (row c : Vec)
+theorem sum_map_idxOf_by (labels : List α) (hl : labels.Nodup) (row c : Vec)
     (hr : row.length = labels.length) (hc : c.length = labels.length) :
     (labels.map (fun l => row.getD (labels.idxOf l) 0 * c.getD (labels.idxOf l) 0)).sum = dot row c := by
   induction labels generalizing row c with
@@ -39,76 +49,123 @@ theorem sum_map_idxOf (labels : List String) (hl : labels.Nodup) (row c : Vec)
           apply List.map_congr_left
           intro l hlt
           have hal : a ≠ l := fun h => hat (h ▸ hlt)
-          rw [idxOf_cons_ne' a l t hal]
+          rw [idxOf_cons_ne_by a l t hal]
           simp
         simp only [List.map_cons, List.sum_cons, dot_cons]
         rw [hmap, ih ht row' c' hr' hc']
         simp
 
 /-- re-ordered row times re-ordered clps = row times clps -/
-theorem reorder_dot (labels wanted : List String) (row c : Vec) (hl : labels.Nodup)
+theorem reorder_dot_by (labels wanted : List α) (row c : Vec) (hl : labels.Nodup)
     (hw : wanted.Perm labels) (hr : row.length = labels.length) (hc : c.length = labels.length) :
-    dot (wanted.map (fun l => row.getD (labels.idxOf l) 0)) (reorderVec labels c wanted) = dot row c := by
-  unfold reorderVec
-  rw [dot_map_map, rat_sum_perm (hw.map _), sum_map_idxOf labels hl row c hr hc]
+    dot (wanted.map (fun l => row.getD (labels.idxOf l) 0)) (reorderVecBy labels c wanted) = dot row c := by
+  unfold reorderVecBy
+  rw [dot_map_map, rat_sum_perm (hw.map _), sum_map_idxOf_by labels hl row c hr hc]
 
-theorem reorder_mulVec_lem (labels wanted : List String) (m : Mat) (c : Vec) (hl : labels.Nodup)
+theorem reorder_mulVec_by (labels wanted : List α) (m : Mat) (c : Vec) (hl : labels.Nodup)
     (hw : wanted.Perm labels) (hm : ∀ row ∈ m, row.length = labels.length) (hc : c.length = labels.length) :
-    mulVec (reorderCols labels m wanted) (reorderVec labels c wanted) = mulVec m c := by
-  simp only [mulVec, reorderCols, List.map_map]
+    mulVec (reorderColsBy labels m wanted) (reorderVecBy labels c wanted) = mulVec m c := by
+  simp only [mulVec, reorderColsBy, List.map_map]
   apply List.map_congr_left
   intro row hrow
-  exact reorder_dot labels wanted row c hl hw (hm row hrow) hc
+  exact reorder_dot_by labels wanted row c hl hw (hm row hrow) hc
 
-theorem reorder_residual (labels wanted : List String) (m : Mat) (y c : Vec) (hl : labels.Nodup)
+theorem reorder_residual_by (labels wanted : List α) (m : Mat) (y c : Vec) (hl : labels.Nodup)
     (hw : wanted.Perm labels) (hm : ∀ row ∈ m, row.length = labels.length) (hc : c.length = labels.length) :
-    residual (reorderCols labels m wanted) y (reorderVec labels c wanted) = residual m y c := by
-  simp only [residual, reorder_mulVec_lem labels wanted m c hl hw hm hc]
+    residual (reorderColsBy labels m wanted) y (reorderVecBy labels c wanted) = residual m y c := by
+  simp only [residual, reorder_mulVec_by labels wanted m c hl hw hm hc]
 
-theorem col_reorderCols (labels wanted : List String) (m : Mat) (k : Nat) (hk : k < wanted.length) :
-    col (reorderCols labels m wanted) k = col m (labels.idxOf wanted[k]) := by
-  simp only [col, reorderCols, List.map_map]
+omit [LawfulBEq α] in
+theorem col_reorderColsBy (labels wanted : List α) (m : Mat) (k : Nat) (hk : k < wanted.length) :
+    col (reorderColsBy labels m wanted) k = col m (labels.idxOf wanted[k]) := by
+  simp only [col, reorderColsBy, List.map_map]
   apply List.map_congr_left
   intro row _
   simp [List.getD_eq_getElem?_getD, List.getElem?_map, List.getElem?_eq_getElem hk]
 
-theorem ncols_reorderCols (labels wanted : List String) (m : Mat) (hne : m ≠ []) :
-    ncols (reorderCols labels m wanted) = wanted.length := by
+omit [LawfulBEq α] in
+theorem ncols_reorderColsBy (labels wanted : List α) (m : Mat) (hne : m ≠ []) :
+    ncols (reorderColsBy labels m wanted) = wanted.length := by
   cases m with
   | nil => exact absurd rfl hne
-  | cons r t => simp [ncols, reorderCols]
+  | cons r t => simp [ncols, reorderColsBy]
+
+end Generic
 
 theorem ncols_of_rows (m : Mat) (n : Nat) (hne : m ≠ []) (hm : ∀ row ∈ m, row.length = n) : ncols m = n := by
   cases m with
   | nil => exact absurd rfl hne
   | cons r t => simpa [ncols] using hm r (by simp)
 
+section Generic2
+variable {α : Type} [BEq α] [LawfulBEq α]
+
 /-- the gradient `Aᵀ r` of the re-ordered problem is the re-ordered gradient -/
-theorem gradient_reorder (labels wanted : List String) (m : Mat) (y c : Vec) (hne : m ≠ [])
+theorem gradient_reorder_by (labels wanted : List α) (m : Mat) (y c : Vec) (hne : m ≠ [])
     (hl : labels.Nodup) (hw : wanted.Perm labels) (hm : ∀ row ∈ m, row.length = labels.length)
     (hc : c.length = labels.length) :
-    gradient (reorderCols labels m wanted) y (reorderVec labels c wanted) =
-      reorderVec labels (gradient m y c) wanted := by
+    gradient (reorderColsBy labels m wanted) y (reorderVecBy labels c wanted) =
+      reorderVecBy labels (gradient m y c) wanted := by
   unfold gradient
-  rw [reorder_residual labels wanted m y c hl hw hm hc, ncols_reorderCols labels wanted m hne,
+  rw [reorder_residual_by labels wanted m y c hl hw hm hc, ncols_reorderColsBy labels wanted m hne,
     ncols_of_rows m labels.length hne hm]
-  simp only [mulVec, transpose, List.map_map, reorderVec]
+  simp only [mulVec, transpose, List.map_map, reorderVecBy]
   apply List.ext_getElem
   · simp
   · intro k h1 h2
     have hk : k < wanted.length := by simpa using h1
     have hmem : wanted[k] ∈ labels := hw.subset (List.getElem_mem hk)
     have hidx : labels.idxOf wanted[k] < labels.length := List.idxOf_lt_length_of_mem hmem
-    simp [col_reorderCols labels wanted m k hk, List.getD_eq_getElem?_getD, hidx]
+    simp [col_reorderColsBy labels wanted m k hk, List.getD_eq_getElem?_getD, hidx]
 
-theorem all_zero_reorderVec (labels wanted : List String) (g : Vec) (hg : g.all (· == 0) = true) :
-    (reorderVec labels g wanted).all (· == 0) = true := by
-  simp only [reorderVec, List.all_eq_true, List.mem_map] at *
+omit [LawfulBEq α] in
+theorem all_zero_reorderVecBy (labels wanted : List α) (g : Vec) (hg : g.all (· == 0) = true) :
+    (reorderVecBy labels g wanted).all (· == 0) = true := by
+  simp only [reorderVecBy, List.all_eq_true, List.mem_map] at *
   rintro x ⟨l, _, rfl⟩
   simp only [List.getD_eq_getElem?_getD]
   cases h : g[labels.idxOf l]? with
   | none => simp
   | some v => simpa using hg v (List.mem_of_getElem? h)
+
+end Generic2
+
+/-! the `String` versions (the names the property theorems use) -/
+
+theorem reorderCols_eq_by (labels wanted : List String) (m : Mat) :
+    reorderCols labels m wanted = reorderColsBy labels m wanted := rfl
+
+theorem reorderVec_eq_by (labels wanted : List String) (c : Vec) :
+    reorderVec labels c wanted = reorderVecBy labels c wanted := rfl
+
+theorem reorder_mulVec_lem (labels wanted : List String) (m : Mat) (c : Vec) (hl : labels.Nodup)
+    (hw : wanted.Perm labels) (hm : ∀ row ∈ m, row.length = labels.length) (hc : c.length = labels.length) :
+    mulVec (reorderCols labels m wanted) (reorderVec labels c wanted) = mulVec m c :=
+  reorder_mulVec_by labels wanted m c hl hw hm hc
+
+theorem reorder_residual (labels wanted : List String) (m : Mat) (y c : Vec) (hl : labels.Nodup)
+    (hw : wanted.Perm labels) (hm : ∀ row ∈ m, row.length = labels.length) (hc : c.length = labels.length) :
+    residual (reorderCols labels m wanted) y (reorderVec labels c wanted) = residual m y c :=
+  reorder_residual_by labels wanted m y c hl hw hm hc
+
+theorem col_reorderCols (labels wanted : List String) (m : Mat) (k : Nat) (hk : k < wanted.length) :
+    col (reorderCols labels m wanted) k = col m (labels.idxOf wanted[k]) :=
+  col_reorderColsBy labels wanted m k hk
+
+theorem ncols_reorderCols (labels wanted : List String) (m : Mat) (hne : m ≠ []) :
+    ncols (reorderCols labels m wanted) = wanted.length :=
+  ncols_reorderColsBy labels wanted m hne
+
+theorem gradient_reorder (labels wanted : List String) (m : Mat) (y c : Vec) (hne : m ≠ [])
+    (hl : labels.Nodup) (hw : wanted.Perm labels) (hm : ∀ row ∈ m, row.length = labels.length)
+    (hc : c.length = labels.length) :
+    gradient (reorderCols labels m wanted) y (reorderVec labels c wanted) =
+      reorderVec labels (gradient m y c) wanted :=
+  gradient_reorder_by labels wanted m y c hne hl hw hm hc
+
+theorem all_zero_reorderVec (labels wanted : List String) (g : Vec) (hg : g.all (· == 0) = true) :
+    (reorderVec labels g wanted).all (· == 0) = true :=
+  all_zero_reorderVecBy labels wanted g hg
 
 /-! ### selection by label -/
 
